@@ -45,7 +45,7 @@ func init() {
 		Rule: "keys: every pool key (512..4096 bit, 2..5 primes, e=65537) plus keys constructed from pool primes (e in {3,5,17,257,2^31-1}, mixed prime sizes giving modulus lengths = 1 mod 8, " +
 			"random exponents of 32..N+64 bits), each in three private-key shapes (no Precompute, Precompute(), Precomputed filled by hand); operations: PKCS#1 v1.5 and OAEP encryption/decryption incl. session keys " +
 			"and crypto.Decrypter options, PKCS#1 v1.5 signatures over every hash prefix zcrypto knows incl. hash 0 and MD5SHA1, PSS with every salt mode; each output goes to the other implementation's inverse; " +
-			"verifiers are compared on genuine, wrong-input and mutated signatures and on signatures/ciphertexts of harness-crafted encoded messages (short or damaged padding, wrong block type, trailing garbage, PSS trailer and top bits). non-trivial = a case where the other implementation accepted the output (cross-acceptance) or both verifiers/decrypters reached a " +
+			"verifiers are compared on genuine, wrong-input and mutated signatures and on signatures/ciphertexts of harness-crafted encoded messages (short or damaged padding, wrong block type, trailing garbage, PSS trailer and top bits); every operation is also run at the exact size limits relative to the modulus length k (hash-0 messages of k-13..k-8 octets incl. harness-signed blocks with 6..11 padding octets, PKCS#1 v1.5 messages k-13..k-9, session keys, OAEP k-2h-4..k-2h, PSS salts emLen-hLen-4..emLen-hLen), where refusal must coincide with crypto/rsa's. non-trivial = a case where the other implementation accepted the output (cross-acceptance) or both verifiers/decrypters reached a " +
 			"verdict on an input derived from a genuine signature/ciphertext; distinct by (key, shape, operation, parameters, message/mutation)",
 		MinNontrivial:         50000,
 		MinNontrivialThorough: 300000,
@@ -1370,6 +1370,284 @@ func (e *env) suiteCrafted() {
 	}
 }
 
+// DigestInfo prefixes from RFC 8017 section 9.2 note 1 (and RFC 2437 / ISO for MD5, RIPEMD-160); the harness' own
+// copy, used to build encoded messages for the boundary cases.
+var digestInfoPrefix = map[crypto.Hash][]byte{
+	crypto.MD5:       {0x30, 0x20, 0x30, 0x0c, 0x06, 0x08, 0x2a, 0x86, 0x48, 0x86, 0xf7, 0x0d, 0x02, 0x05, 0x05, 0x00, 0x04, 0x10},
+	crypto.SHA1:      {0x30, 0x21, 0x30, 0x09, 0x06, 0x05, 0x2b, 0x0e, 0x03, 0x02, 0x1a, 0x05, 0x00, 0x04, 0x14},
+	crypto.SHA224:    {0x30, 0x2d, 0x30, 0x0d, 0x06, 0x09, 0x60, 0x86, 0x48, 0x01, 0x65, 0x03, 0x04, 0x02, 0x04, 0x05, 0x00, 0x04, 0x1c},
+	crypto.SHA256:    {0x30, 0x31, 0x30, 0x0d, 0x06, 0x09, 0x60, 0x86, 0x48, 0x01, 0x65, 0x03, 0x04, 0x02, 0x01, 0x05, 0x00, 0x04, 0x20},
+	crypto.SHA384:    {0x30, 0x41, 0x30, 0x0d, 0x06, 0x09, 0x60, 0x86, 0x48, 0x01, 0x65, 0x03, 0x04, 0x02, 0x02, 0x05, 0x00, 0x04, 0x30},
+	crypto.SHA512:    {0x30, 0x51, 0x30, 0x0d, 0x06, 0x09, 0x60, 0x86, 0x48, 0x01, 0x65, 0x03, 0x04, 0x02, 0x03, 0x05, 0x00, 0x04, 0x40},
+	crypto.MD5SHA1:   {},
+	crypto.RIPEMD160: {0x30, 0x20, 0x30, 0x08, 0x06, 0x06, 0x28, 0xcf, 0x06, 0x03, 0x00, 0x31, 0x04, 0x14},
+	0:                {},
+}
+
+func rel(n int) string { // "k-11", "k+1", "k"
+	if n == 0 {
+		return "k"
+	}
+	return fmt.Sprintf("k%+d", n)
+}
+
+// suiteBoundaries puts every operation at the exact size limits relative to the modulus length k:
+// refusal must coincide with crypto/rsa's, and on the accepting side the output must be cross-accepted both ways.
+func (e *env) suiteBoundaries() {
+	k := e.k.size()
+	std := e.k.std
+	// --- PKCS#1 v1.5 signatures: T = DigestInfo || digest; limit is k >= |T| + 11 (eight 0xff octets).
+	// hash 0 with raw messages of k-13..k-8 octets hits the limit on every key; real hashes hit it on odd key sizes.
+	type sc struct {
+		h crypto.Hash
+		l int
+	}
+	var scs []sc
+	for l := k - 13; l <= k-8; l++ {
+		if l >= 1 {
+			scs = append(scs, sc{0, l})
+		}
+	}
+	for _, h := range pkcsSignHashes {
+		if h == 0 {
+			continue
+		}
+		if pad := k - len(digestInfoPrefix[h]) - h.Size() - 3; pad >= 3 && pad <= 12 {
+			scs = append(scs, sc{h, h.Size()})
+			e.c.Count("boundary_real_hash_near_limit", 1)
+		}
+	}
+	for _, c := range scs {
+		h := c.h
+		msg := randBytes(e.rng, c.l)
+		tLen := len(digestInfoPrefix[h]) + c.l
+		pad := k - tLen - 3 // number of 0xff octets an encoded message would have
+		tag := fmt.Sprintf("%s:padding=%d", hashName(h), pad)
+		in := []any{"hash", hashName(h), "digest", msg, "length", rel(c.l - k), "padding_octets", pad}
+		var zsig []byte
+		var zerr error
+		if !e.z("SignPKCS1v15", func() { zsig, zerr = zrsa.SignPKCS1v15(nil, e.zk, h, msg) }, in...) {
+			continue
+		}
+		ssig, serr := stdrsa.SignPKCS1v15(nil, std, h, msg)
+		e.c.Eval(1)
+		if (zerr == nil) != (serr == nil) {
+			detail := fmt.Sprintf("zcrypto err=%s, crypto/rsa err=%s", errStr(zerr), errStr(serr))
+			if zerr == nil {
+				detail += fmt.Sprintf("; crypto/rsa verifies zcrypto's signature: %s", errStr(stdrsa.VerifyPKCS1v15(&std.PublicKey, h, msg, zsig)))
+				in = append(in, "signature", zsig)
+			}
+			e.viol("boundary:SignPKCS1v15:"+tag+":refusal-differs", detail, "SignPKCS1v15", in...)
+		} else if zerr == nil {
+			if err := stdrsa.VerifyPKCS1v15(&std.PublicKey, h, msg, zsig); err != nil {
+				e.viol("boundary:SignPKCS1v15->std.VerifyPKCS1v15:"+tag, errStr(err), "SignPKCS1v15", append(in, "signature", zsig)...)
+			} else {
+				e.nontrivial("bnd-sign-z2s", tag, msg)
+				e.c.Count("boundary_sign_cross_accept", 1)
+			}
+			var verr error
+			if e.z("VerifyPKCS1v15", func() { verr = zrsa.VerifyPKCS1v15(&e.zk.PublicKey, h, msg, ssig) }, append(in, "signature", ssig)...) {
+				if verr != nil {
+					e.viol("boundary:std.SignPKCS1v15->VerifyPKCS1v15:"+tag, errStr(verr), "VerifyPKCS1v15", append(in, "signature", ssig)...)
+				} else {
+					e.nontrivial("bnd-sign-s2z", tag, msg)
+				}
+			}
+		} else {
+			e.nontrivial("bnd-sign-refuse", tag, msg)
+			e.c.Count("boundary_sign_both_refuse", 1)
+		}
+		// the encoded message with exactly `pad` 0xff octets, signed by the harness: verifiers must agree
+		if pad >= 0 {
+			em := make([]byte, 0, k)
+			em = append(em, 0, 1)
+			em = append(em, bytes.Repeat([]byte{0xff}, pad)...)
+			em = append(em, 0)
+			em = append(em, digestInfoPrefix[h]...)
+			em = append(em, msg...)
+			if len(em) == k {
+				sig := leftPad(new(big.Int).Exp(new(big.Int).SetBytes(em), e.k.D, e.k.N), k)
+				ok, acc := e.agreeVerify("VerifyPKCS1v15", "boundary:"+tag,
+					func() error { return zrsa.VerifyPKCS1v15(&e.zk.PublicKey, h, msg, sig) },
+					func() error { return stdrsa.VerifyPKCS1v15(&std.PublicKey, h, msg, sig) },
+					append(in, "em", em, "signature", sig)...)
+				if ok {
+					e.nontrivial("bnd-verify", tag, msg)
+					if acc {
+						e.c.Count("boundary_crafted_signature_both_accept", 1)
+					} else {
+						e.c.Count("boundary_crafted_signature_both_reject", 1)
+					}
+				}
+			}
+		}
+	}
+	// --- PKCS#1 v1.5 encryption: limit is |M| <= k-11
+	var lastCT []byte
+	for l := k - 13; l <= k-9; l++ {
+		if l < 0 {
+			continue
+		}
+		msg := randBytes(e.rng, l)
+		tag := "len=" + rel(l-k)
+		in := []any{"msg", msg, "length", rel(l - k)}
+		var cz []byte
+		var zerr error
+		if !e.z("EncryptPKCS1v15", func() { cz, zerr = zrsa.EncryptPKCS1v15(e.reader(), &e.zk.PublicKey, msg) }, in...) {
+			continue
+		}
+		cs, serr := stdrsa.EncryptPKCS1v15(e.reader(), &std.PublicKey, msg)
+		e.c.Eval(1)
+		if (zerr == nil) != (serr == nil) {
+			e.viol("boundary:EncryptPKCS1v15:"+tag+":refusal-differs", fmt.Sprintf("zcrypto err=%s, crypto/rsa err=%s", errStr(zerr), errStr(serr)), "EncryptPKCS1v15", in...)
+			continue
+		}
+		if zerr != nil {
+			e.nontrivial("bnd-enc-refuse", tag, msg)
+			continue
+		}
+		if pt, err := stdrsa.DecryptPKCS1v15(nil, std, cz); err != nil || !bytes.Equal(pt, msg) {
+			e.viol("boundary:EncryptPKCS1v15->std.DecryptPKCS1v15:"+tag, fmt.Sprintf("err=%s pt=%x", errStr(err), pt), "EncryptPKCS1v15", append(in, "ciphertext", cz)...)
+		} else {
+			e.nontrivial("bnd-enc-z2s", tag, msg)
+		}
+		var pz []byte
+		if e.z("DecryptPKCS1v15", func() { pz, zerr = zrsa.DecryptPKCS1v15(nil, e.zk, cs) }, append(in, "ciphertext", cs)...) {
+			if zerr != nil || !bytes.Equal(pz, msg) {
+				e.viol("boundary:std.EncryptPKCS1v15->DecryptPKCS1v15:"+tag, fmt.Sprintf("err=%s pt=%x", errStr(zerr), pz), "DecryptPKCS1v15", append(in, "ciphertext", cs)...)
+			} else {
+				e.nontrivial("bnd-enc-s2z", tag, msg)
+				e.c.Count("boundary_encrypt_cross_accept", 1)
+			}
+		}
+		lastCT = cs
+	}
+	// session-key buffers around the limit k-11 on a ciphertext of a maximal message
+	if lastCT != nil {
+		for bl := k - 13; bl <= k-9; bl++ {
+			if bl < 1 {
+				continue
+			}
+			init := randBytes(e.rng, bl)
+			bz, bs := append([]byte(nil), init...), append([]byte(nil), init...)
+			var zerr error
+			if !e.z("DecryptPKCS1v15SessionKey", func() { zerr = zrsa.DecryptPKCS1v15SessionKey(nil, e.zk, lastCT, bz) }, "ciphertext", lastCT, "keylen", rel(bl-k)) {
+				continue
+			}
+			serr := stdrsa.DecryptPKCS1v15SessionKey(nil, std, lastCT, bs)
+			e.c.Eval(1)
+			if (zerr == nil) != (serr == nil) || !bytes.Equal(bz, bs) {
+				e.viol("boundary:DecryptPKCS1v15SessionKey:keylen="+rel(bl-k), fmt.Sprintf("zcrypto err=%s key=%x; crypto/rsa err=%s key=%x", errStr(zerr), bz, errStr(serr), bs), "DecryptPKCS1v15SessionKey", "ciphertext", lastCT, "initial", init)
+			} else {
+				e.nontrivial("bnd-sesskey", bl-k, init)
+			}
+		}
+	}
+	// --- OAEP: limit is |M| <= k-2h-2 (quick tier: one hash per item, rotating)
+	for ohi, h := range oaepHashes {
+		if !e.full && ohi != (e.item+1)%len(oaepHashes) {
+			continue
+		}
+		for l := k - 2*h.Size() - 4; l <= k-2*h.Size(); l++ {
+			if l < 0 {
+				continue
+			}
+			msg := randBytes(e.rng, l)
+			tag := fmt.Sprintf("%s:len=k-2h%+d", hashName(h), l-(k-2*h.Size()))
+			in := []any{"hash", hashName(h), "msg", msg}
+			var cz []byte
+			var zerr error
+			if !e.z("EncryptOAEP", func() { cz, zerr = zrsa.EncryptOAEP(h.New(), e.reader(), &e.zk.PublicKey, msg, nil) }, in...) {
+				continue
+			}
+			cs, serr := stdrsa.EncryptOAEP(h.New(), e.reader(), &std.PublicKey, msg, nil)
+			e.c.Eval(1)
+			if (zerr == nil) != (serr == nil) {
+				e.viol("boundary:EncryptOAEP:"+tag+":refusal-differs", fmt.Sprintf("zcrypto err=%s, crypto/rsa err=%s", errStr(zerr), errStr(serr)), "EncryptOAEP", in...)
+				continue
+			}
+			if zerr != nil {
+				e.nontrivial("bnd-oaep-refuse", tag, msg)
+				continue
+			}
+			if pt, err := stdrsa.DecryptOAEP(h.New(), nil, std, cz, nil); err != nil || !bytes.Equal(pt, msg) {
+				e.viol("boundary:EncryptOAEP->std.DecryptOAEP:"+tag, fmt.Sprintf("err=%s pt=%x", errStr(err), pt), "EncryptOAEP", append(in, "ciphertext", cz)...)
+			} else {
+				e.nontrivial("bnd-oaep-z2s", tag, msg)
+			}
+			var pz []byte
+			if e.z("DecryptOAEP", func() { pz, zerr = zrsa.DecryptOAEP(h.New(), nil, e.zk, cs, nil) }, append(in, "ciphertext", cs)...) {
+				if zerr != nil || !bytes.Equal(pz, msg) {
+					e.viol("boundary:std.EncryptOAEP->DecryptOAEP:"+tag, fmt.Sprintf("err=%s pt=%x", errStr(zerr), pz), "DecryptOAEP", append(in, "ciphertext", cs)...)
+				} else {
+					e.nontrivial("bnd-oaep-s2z", tag, msg)
+					e.c.Count("boundary_oaep_cross_accept", 1)
+				}
+			}
+		}
+	}
+	// --- PSS: limit is salt <= emLen-hLen-2 (quick tier: two hashes per item, rotating)
+	emLen := (e.k.N.BitLen() - 1 + 7) / 8
+	for phi, h := range pssHashes {
+		if !e.full && phi != (e.item+1)%len(pssHashes) && phi != (e.item+4)%len(pssHashes) {
+			continue
+		}
+		digest := randBytes(e.rng, h.Size())
+		for sl := emLen - h.Size() - 4; sl <= emLen-h.Size(); sl++ {
+			if sl < 1 {
+				continue
+			}
+			tag := fmt.Sprintf("%s:salt=emLen-hLen%+d", hashName(h), sl-(emLen-h.Size()))
+			in := []any{"hash", hashName(h), "digest", digest, "salt_length", sl}
+			var zsig []byte
+			var zerr error
+			if !e.z("SignPSS", func() { zsig, zerr = zrsa.SignPSS(e.reader(), e.zk, h, digest, &zrsa.PSSOptions{SaltLength: sl}) }, in...) {
+				continue
+			}
+			ssig, serr := stdrsa.SignPSS(e.reader(), std, h, digest, &stdrsa.PSSOptions{SaltLength: sl})
+			e.c.Eval(1)
+			if (zerr == nil) != (serr == nil) {
+				e.viol("boundary:SignPSS:"+tag+":refusal-differs", fmt.Sprintf("zcrypto err=%s, crypto/rsa err=%s", errStr(zerr), errStr(serr)), "SignPSS", in...)
+				continue
+			}
+			if zerr != nil {
+				e.nontrivial("bnd-pss-refuse", tag, digest)
+				continue
+			}
+			for _, vsl := range []int{sl, stdrsa.PSSSaltLengthAuto} {
+				if err := stdrsa.VerifyPSS(&std.PublicKey, h, digest, zsig, &stdrsa.PSSOptions{SaltLength: vsl}); err != nil {
+					e.viol("boundary:SignPSS->std.VerifyPSS:"+tag, errStr(err), "SignPSS", append(in, "signature", zsig, "verify_salt_length", vsl)...)
+				} else {
+					e.nontrivial("bnd-pss-z2s", tag, vsl, digest)
+				}
+				var verr error
+				if e.z("VerifyPSS", func() { verr = zrsa.VerifyPSS(&e.zk.PublicKey, h, digest, ssig, &zrsa.PSSOptions{SaltLength: vsl}) }, append(in, "signature", ssig)...) {
+					if verr != nil {
+						e.viol("boundary:std.SignPSS->VerifyPSS:"+tag, errStr(verr), "VerifyPSS", append(in, "signature", ssig, "verify_salt_length", vsl)...)
+					} else {
+						e.nontrivial("bnd-pss-s2z", tag, vsl, digest)
+						e.c.Count("boundary_pss_cross_accept", 1)
+					}
+				}
+			}
+			// verifying with salt lengths around the real one, including ones beyond the limit: same verdict
+			for _, vsl := range []int{sl + 1, sl + 2, sl - 1} {
+				if vsl < 1 {
+					continue
+				}
+				e.agreeVerify("VerifyPSS", "boundary:other-salt-length",
+					func() error {
+						return zrsa.VerifyPSS(&e.zk.PublicKey, h, digest, ssig, &zrsa.PSSOptions{SaltLength: vsl})
+					},
+					func() error {
+						return stdrsa.VerifyPSS(&std.PublicKey, h, digest, ssig, &stdrsa.PSSOptions{SaltLength: vsl})
+					},
+					append(in, "signature", ssig, "verify_salt_length", vsl)...)
+			}
+		}
+	}
+}
+
 func (e *env) suiteValidateEqual() {
 	var verr error
 	if e.z("Validate", func() { verr = e.zk.Validate() }) {
@@ -1841,6 +2119,7 @@ func runC23(c *core.Ctx) {
 			e.suiteSignPKCS1()
 			e.suitePSS()
 			e.suiteCrafted()
+			e.suiteBoundaries()
 		} else {
 			e.suiteBigE()
 		}
